@@ -95,6 +95,17 @@ func fixedType(t *Type) *Type {
 	return &t2
 }
 
+// containsFixed reports whether t or one of its element types is the type
+// of a variable, as in the type of the literal [x] for a variable x:[]num.
+func containsFixed(t *Type) bool {
+	for ; t != nil; t = t.Sub {
+		if t.Fixed {
+			return true
+		}
+	}
+	return false
+}
+
 // String returns a string representation of the Type.
 func (t *Type) String() string {
 	if t == nil {
